@@ -88,12 +88,12 @@ theorem BkStep.of_unpaid {b b' : Book} (hu : b'.uid = b.uid) (hs : b'.status = b
   cases hc
 
 /-- a book that did not exist before: nothing paid, not SETTLED -/
-def NewBook (b : Book) : Prop := (∀ i p, b.getPart i = some p → p.isSettled = false) ∧ b.status ≠ OB_SETTLED
+def RetNewBook (b : Book) : Prop := (∀ i p, b.getPart i = some p → p.isSettled = false) ∧ b.status ≠ OB_SETTLED
 
 /-- the books of two states related by messages / bet settlements -/
 structure StStep (s s' : State) : Prop where
   fwd : ∀ b ∈ s.books, ∃ b' ∈ s'.books, BkStep b b'
-  bwd : ∀ b' ∈ s'.books, NewBook b' ∨ ∃ b ∈ s.books, BkStep b b'
+  bwd : ∀ b' ∈ s'.books, RetNewBook b' ∨ ∃ b ∈ s.books, BkStep b b'
 
 theorem StStep.of_eq {s s' : State} (h : s'.books = s.books) : StStep s s' :=
   ⟨fun b hb => ⟨b, by rw [h]; exact hb, BkStep.refl b⟩, fun b' hb' => Or.inr ⟨b', by rw [← h]; exact hb', BkStep.refl b'⟩⟩
@@ -165,18 +165,18 @@ theorem StStep.addBook {s : State} (hsB : Sorted Book.key s.books) (nb : Book) (
 def PaidInv (s : State) : Prop := ∀ b ∈ s.books, b.status = OB_SETTLED → ∀ p ∈ b.parts, p.isSettled = true
 
 /-- paid records are still there -/
-def Keeps (s s' : State) : Prop :=
+def KeepsPaid (s s' : State) : Prop :=
   ∀ b ∈ s.books, ∀ p ∈ b.parts, p.isSettled = true → ∃ b' ∈ s'.books, b'.uid = b.uid ∧ p ∈ b'.parts
 
-theorem Keeps.refl (s : State) : Keeps s s := fun b hb p hp _ => ⟨b, hb, rfl, hp⟩
+theorem KeepsPaid.refl (s : State) : KeepsPaid s s := fun b hb p hp _ => ⟨b, hb, rfl, hp⟩
 
-theorem Keeps.trans {a b c : State} (h1 : Keeps a b) (h2 : Keeps b c) : Keeps a c := by
+theorem KeepsPaid.trans {a b c : State} (h1 : KeepsPaid a b) (h2 : KeepsPaid b c) : KeepsPaid a c := by
   intro x hx p hp hs
   obtain ⟨y, hy, u1, hp1⟩ := h1 x hx p hp hs
   obtain ⟨z, hz, u2, hp2⟩ := h2 y hy p hp1 hs
   exact ⟨z, hz, u2.trans u1, hp2⟩
 
-theorem StStep.keeps {s s' : State} (h : StStep s s') (hsP : ∀ b ∈ s.books, Sorted Part.key b.parts) : Keeps s s' := by
+theorem StStep.keeps {s s' : State} (h : StStep s s') (hsP : ∀ b ∈ s.books, Sorted Part.key b.parts) : KeepsPaid s s' := by
   intro b hb p hp hs
   obtain ⟨b', hb', hx⟩ := h.fwd b hb
   have hg := Book.mem_getPart (hsP b hb) hp
